@@ -374,7 +374,8 @@ class LibRDEngine(RDEngineBase) :
 
     def iterate_n(self, n_iterations) :
         
-        self._simulation_unfinished = self._lib.engineexport_iterate_n(n_iterations)
+        if n_iterations > 0 :
+            self._simulation_unfinished = self._lib.engineexport_iterate_n(n_iterations)
         return bool(self._simulation_unfinished)
 
 
